@@ -79,7 +79,7 @@ func (c *c12) addServers(n int) {
 // connection of the same identity (again[i]) so that the two sessions of one player stay distinguishable.
 func (c *c12) label(p *connectedPlayer) string {
 	for _, s := range c.again {
-		if s.player() == p {
+		if s.mc == p.MinecraftConn { // (not s.player(): that field is being written by the login thread)
 			return p.Username() + "'"
 		}
 	}
@@ -397,9 +397,9 @@ func c12Scenarios() []dualrun.Scenario {
 			"w": func(c *c12) { c.again[0].login() }}),
 		// ---- input shapes of disconnect-everyone: no reason given (Shutdown(nil) does that), and a player
 		// whose connection is already broken (the disconnect packet cannot be written) ----
-		mk("DisconnectAll-nil-reason-broken-conns", 2, 3, 150, 2000, false, []int{0, 1, 2}, 0, map[string]body{
+		mk("DisconnectAll-nil-reason-broken-conns", 2, 3, 150, 2000, false, []int{0, 1}, 0, map[string]body{
 			"r": func(c *c12) {
-				for _, i := range []int{0, 1, 2} {
+				for _, i := range []int{0, 1} {
 					c.sess[i].base.failWrites(errors.New("broken pipe"))
 				}
 				c.reason = nil
